@@ -18,7 +18,7 @@ Definition table : list opfp := [
   mkFp "QuoteIdent" Independent ["keywords"; "qiReplacer"] [] [];
   mkFp "QuoteString" Independent ["qsReplacer"] [] [];
   mkFp "IdentNeedsQuotes" Independent ["keywords"] [] [];
-  mkFp "Sanitize" Independent ["sanitizeCreatePassword"; "sanitizeSetPassword"] [] [];
+  mkFp "Sanitize" Independent ["sanitizePassword"] [] [];
   mkFp "Lookup" Independent ["keywords"] [] [];
   mkFp "BindValue" Independent [] [] [];
   mkFp "(*SelectStatement).String" SharedRead ["keywords"; "qiReplacer"; "qsReplacer"; "tokens"] [] [];
@@ -66,7 +66,7 @@ Definition claimed_safe (o : opfp) : bool := match fp_kind o with Mutator => fal
 (* the tables built once at init, shared replacers and patterns: the anchors of the property *)
 Definition shared_state : list string :=
   ["Language"; "keywords"; "tokens"; "qsReplacer"; "qiReplacer"; "dateStringRegexp"; "dateTimeStringRegexp";
-   "sanitizeSetPassword"; "sanitizeCreatePassword"].
+   "sanitizePassword"].
 
 (* ---- link to the machine: a layout places every package-level variable and every node of a shared AST at shared
    locations, everything a call allocates at locations owned by the calling thread ---- *)
